@@ -1,6 +1,8 @@
 package main
 
 import (
+	"bytes"
+	"errors"
 	"fmt"
 	"io"
 	"strings"
@@ -62,8 +64,9 @@ func checkWorld(r *seq.Run, w *world, seqn []op) {
 		}
 		w.lines = [2][][]byte{}
 		w.w.Log.Calls, w.w.Log.Ctxs = nil, nil
-		lg.Info().Msg("probe")
-		ex := seqx.ExpectEvent(o.m, seqx.Entry{Kind: "Info"}, nil, seqx.Final{Kind: "Msg", Text: "probe"})
+		probeErr := seqx.Field{M: "Err", Val: errProbe}
+		seqx.ApplyEvent(lg.Info(), probeErr).Msg("probe")
+		ex := seqx.ExpectEvent(o.m, seqx.Entry{Kind: "Info"}, []seqx.Field{probeErr}, seqx.Final{Kind: "Msg", Text: "probe"})
 		wi := o.m.Writer
 		if len(w.lines[wi]) != 1 || len(w.lines[1-wi]) != 0 {
 			r.Violation("", "probe-dest", fmt.Sprintf("%s: probe of value %d (%s) produced %d/%d lines on writers %d/%d", desc(), i, o.origin, len(w.lines[wi]), len(w.lines[1-wi]), wi, 1-wi), desc())
@@ -106,10 +109,10 @@ func checkWorld(r *seq.Run, w *world, seqn []op) {
 		po, pe := seqx.CtxProbe{Seen: &w.seen}, seqx.CtxProbeErr{Seen: &w.seen}
 		{
 			// first fill the pool with events that another logger, with another Go context, has finalised
-			other := zerolog.New(io.Discard).With().Ctx(seqx.GoCtx(77)).Logger()
+			other := zerolog.New(io.Discard).With().Stack().Ctx(seqx.GoCtx(77)).Logger()
 			var open []*zerolog.Event
 			for k := 0; k < 6; k++ {
-				open = append(open, other.Info().Int("k", k))
+				open = append(open, other.Info().Int("k", k).Err(errProbe))
 			}
 			for _, e := range open {
 				e.Msg("other")
@@ -121,6 +124,24 @@ func checkWorld(r *seq.Run, w *world, seqn []op) {
 		_ = lg.With().Fields(map[string]interface{}{"fo": po}).Fields([]interface{}{"fe", pe}).Err(pe).Errs("es", []error{pe}).Array("a", zerolog.Arr().Object(po).Err(pe)).EmbedObject(po).Logger()
 		if nEvent != 9 || len(w.seen) != 16 {
 			r.Violation("", "probe-marshalers", fmt.Sprintf("%s: %d / %d of 9 / 16 scratch-path probe marshalers ran", desc(), nEvent, len(w.seen)), desc())
+		}
+		// errors added inside scratch events (zerolog.Dict(), array elements, Fields values) never carry a stack
+		// field: those events belong to no logger - whatever flag an earlier user of the pooled object had
+		{
+			w.lines = [2][][]byte{}
+			inner := errInObj{}
+			lg.Info().Dict("d", zerolog.Dict().Err(errProbe)).Array("a", zerolog.Arr().Object(inner)).
+				Fields(map[string]interface{}{"fo": inner}).Fields([]interface{}{"fs", inner}).Msg("probe4")
+			for _, l := range append(append([][]byte{}, w.lines[0]...), w.lines[1]...) {
+				if bytes.Contains(l, []byte(`"stack"`)) {
+					r.Violation("", "stale-stack/scratch", fmt.Sprintf("%s: an error added inside a scratch event (Dict / Arr().Object / Fields value) of logger value %d got a stack field left behind by another logger's event: %s", desc(), i, l), desc())
+				}
+			}
+			if cl := o.cx; o.isCtx {
+				_ = cl
+			}
+			w.lines = [2][][]byte{}
+			_ = lg.With().Dict("d", zerolog.Dict().Err(errProbe)).Array("a", zerolog.Arr().Object(inner)).Fields(map[string]interface{}{"fo": inner}).Logger()
 		}
 		for k, c := range w.seen {
 			if id := seqx.CtxID(c); id != 0 && id != o.m.GoCtx {
@@ -137,6 +158,13 @@ func checkWorld(r *seq.Run, w *world, seqn []op) {
 }
 
 type contextRec struct{}
+
+var errProbe = errors.New("pe")
+
+// errInObj is an object whose marshaler adds an error field to the (scratch) event it is handed.
+type errInObj struct{}
+
+func (errInObj) MarshalZerologObject(e *zerolog.Event) { e.Err(errProbe) }
 
 func matchLine(r *seq.Run, line []byte, want []seqx.KV, sig, key, what, replay string) {
 	root, err := jsonstrict.ParseLine(line)
